@@ -371,6 +371,148 @@ static std::string RunVarM(const std::vector<std::string>& ops) {
   return out;
 }
 
+// ------------------------------------------ Variant over convertible element types --
+// SrcA converts to TcA only and SrcB to TcB only (constructor and assignment operator, so no temporaries); VarO is another
+// Variant type whose alternatives are all convertible to an alternative of VarC.
+struct SrcA { int v; };
+struct SrcB { int v; };
+struct TcA : Tr<1> { TcA() {} TcA(const SrcA& s) : Tr<1>(s.v) {} TcA& operator=(const SrcA& s) { Tr<1>::operator=(s.v); return *this; } };
+struct TcB : Tr<3> { TcB() {} TcB(const SrcB& s) : Tr<3>(s.v) {} TcB& operator=(const SrcB& s) { Tr<3>::operator=(s.v); return *this; } };
+using VarC = nop::Variant<float, TcA, int, TcB>;
+using VarO = nop::Variant<SrcA, SrcB, float, int>;
+
+struct VisitorC {
+  int calls = 0, index = -2, value = 0;
+  void operator()(const float& e) { calls++; index = 0; value = static_cast<int>(e); }
+  void operator()(const TcA& e) { calls++; index = 1; value = e.v; }
+  void operator()(const int& e) { calls++; index = 2; value = e; }
+  void operator()(const TcB& e) { calls++; index = 3; value = e.v; }
+  void operator()(nop::EmptyVariant) { calls++; index = -1; }
+};
+
+static std::string DumpVarC(Pool<VarC>& p) {
+  std::string s;
+  for (int i = 0; i < 3; i++) {
+    if (i) s += ";";
+    if (!p.alive[i]) { s += "X"; continue; }
+    VarC* v = p.at(i);
+    const VarC* cv = v;
+    VisitorC vis;
+    v->Visit(vis);
+    int idx = v->index();
+    bool ok = vis.calls == 1 && vis.index == idx && v->empty() == (idx == -1) && idx >= -1 && idx <= 3 &&
+              (v->get<float>() != nullptr) == (idx == 0) && (v->get<TcA>() != nullptr) == (idx == 1) &&
+              (v->get<int>() != nullptr) == (idx == 2) && (v->get<TcB>() != nullptr) == (idx == 3);
+    // by index, through const, and through std::get: the same element or nothing
+    ok = ok && static_cast<const void*>(v->get<0>()) == static_cast<const void*>(v->get<float>()) &&
+         static_cast<const void*>(v->get<1>()) == static_cast<const void*>(v->get<TcA>()) &&
+         static_cast<const void*>(cv->get<2>()) == static_cast<const void*>(cv->get<int>()) &&
+         static_cast<const void*>(cv->get<3>()) == static_cast<const void*>(v->get<TcB>());
+    if (ok && idx == 1) ok = &std::get<TcA>(*v) == v->get<TcA>() && &std::get<1>(*cv) == v->get<TcA>() && std::get<TcA>(*v).v == vis.value;
+    if (ok && idx == 2) ok = &std::get<int>(*cv) == v->get<int>() && &std::get<2>(*v) == v->get<int>();
+    // IfAnyOf: the operation runs exactly when the active alternative is one of the listed types
+    int tracked_calls = 0, tracked_value = -12345; double num = -12345;
+    bool r1 = nop::IfAnyOf<TcA, TcB>::Call(v, [&](const auto& e) { tracked_calls++; tracked_value = e.v; });
+    bool r2 = nop::IfAnyOf<float, int>::Get(cv, &num);
+    ok = ok && r1 == (idx == 1 || idx == 3) && tracked_calls == (r1 ? 1 : 0) && (!r1 || tracked_value == vis.value) &&
+         r2 == (idx == 0 || idx == 2) && (!r2 || static_cast<int>(num) == vis.value);
+    if (!ok) { s += "INCONSISTENT"; continue; }
+    if (idx == -1) s += "E"; else s += "A" + std::to_string(idx) + ":" + std::to_string(vis.value);
+  }
+  return s;
+}
+
+static int VarCConstruct(void* mem, int k, int x, bool thr) {
+  switch (k) {
+    case 0: new (mem) VarC(static_cast<float>(x)); return 0;
+    case 1: { TcA tmp(SrcA{x}); g_throw = thr; try { new (mem) VarC(tmp); } catch (...) { g_throw = false; throw; } g_throw = false; return 1; }
+    case 2: new (mem) VarC(x); return 0;
+    default: { TcB tmp(SrcB{x}); g_throw = thr; try { new (mem) VarC(tmp); } catch (...) { g_throw = false; throw; } g_throw = false; return 1; }
+  }
+}
+static int VarCSet(VarC* v, int k, int x, bool thr) {
+  switch (k) {
+    case 0: *v = static_cast<float>(x); return 0;
+    case 1: { TcA tmp(SrcA{x}); g_throw = thr; try { *v = tmp; } catch (...) {} g_throw = false; return 1; }
+    case 2: *v = x; return 0;
+    default: { TcB tmp(SrcB{x}); g_throw = thr; try { *v = tmp; } catch (...) {} g_throw = false; return 1; }
+  }
+}
+static VarO MakeOther(int j, int x) {
+  switch (j) {
+    case 0: return VarO(SrcA{x});
+    case 1: return VarO(SrcB{x});
+    case 2: return VarO(static_cast<float>(x));
+    case 3: return VarO(x);
+    default: return VarO();
+  }
+}
+
+static std::string RunVarC(const std::vector<std::string>& ops) {
+  auto p = std::make_unique<Pool<VarC>>();
+  std::string out;
+  Window w;
+  for (const auto& op : ops) {
+    char c = op[0];
+    std::vector<std::string> a = Split(op.substr(1), ':');
+    int i = std::stoi(a[0]);
+    int k = a.size() > 1 ? std::stoi(a[1]) : 0;
+    int x = a.size() > 2 ? std::stoi(a[2]) : 0;
+    bool thr = a.size() > 3 && a[3] == "1" && (k == 1 || k == 3);
+    bool done = true;
+    auto dead = [&](int q) { return q >= 0 && q < 3 && !p->alive[q]; };
+    auto live = [&](int q) { return q >= 0 && q < 3 && p->alive[q]; };
+    auto alt = [&](int q) { return q >= 0 && q < 4; };
+    switch (c) {
+      case 'N': if (dead(i)) { w.Open(); new (p->mem[i]) VarC(); w.Close(); p->alive[i] = true; } else done = false; break;
+      case 'V':
+        if (dead(i) && alt(k)) {
+          int tmp = (k == 1 || k == 3) ? 1 : 0;
+          w.Open();
+          try { VarCConstruct(p->mem[i], k, x, thr); p->alive[i] = true; } catch (...) {}
+          w.Close();
+          Window::ctor -= tmp; Window::dtor -= tmp;
+        } else done = false;
+        break;
+      case 'C': if (dead(i) && live(k)) { w.Open(); new (p->mem[i]) VarC(*p->at(k)); w.Close(); p->alive[i] = true; } else done = false; break;
+      case 'X': if (dead(i) && live(k)) { w.Open(); new (p->mem[i]) VarC(std::move(*p->at(k))); w.Close(); p->alive[i] = true; } else done = false; break;
+      case 'D': if (live(i)) { w.Open(); p->at(i)->~VarC(); w.Close(); p->alive[i] = false; } else done = false; break;
+      case 's':
+        if (live(i) && alt(k)) {
+          int tmp = (k == 1 || k == 3) ? 1 : 0;
+          w.Open(); VarCSet(p->at(i), k, x, thr); w.Close();
+          Window::ctor -= tmp; Window::dtor -= tmp;
+        } else done = false;
+        break;
+      case 'e': if (live(i)) { w.Open(); *p->at(i) = nop::EmptyVariant{}; w.Close(); } else done = false; break;
+      case 'a': if (live(i) && live(k)) { w.Open(); *p->at(i) = *p->at(k); w.Close(); } else done = false; break;
+      case 'm': if (live(i) && live(k)) { w.Open(); *p->at(i) = std::move(*p->at(k)); w.Close(); } else done = false; break;
+      case 'B': if (live(i)) { w.Open(); p->at(i)->Become(k); w.Close(); } else done = false; break;
+      // converting construction / assignment from a type that is not an alternative (k = 1: SrcA -> TcA, k = 3: SrcB -> TcB)
+      case 'K':
+        if (dead(i) && (k == 1 || k == 3)) {
+          w.Open(); if (k == 1) new (p->mem[i]) VarC(SrcA{x}); else new (p->mem[i]) VarC(SrcB{x}); w.Close();
+          p->alive[i] = true;
+        } else done = false;
+        break;
+      case 'k':
+        if (live(i) && (k == 1 || k == 3)) { w.Open(); if (k == 1) *p->at(i) = SrcA{x}; else *p->at(i) = SrcB{x}; w.Close(); } else done = false;
+        break;
+      // construction / assignment from another Variant type holding alternative k (-1: empty), by copy and by move
+      case 'O': if (dead(i) && k >= -1 && k < 4) { VarO o = MakeOther(k, x); w.Open(); new (p->mem[i]) VarC(o); w.Close(); p->alive[i] = true; } else done = false; break;
+      case 'P': if (dead(i) && k >= -1 && k < 4) { VarO o = MakeOther(k, x); w.Open(); new (p->mem[i]) VarC(std::move(o)); w.Close(); p->alive[i] = true; } else done = false; break;
+      case 'o': if (live(i) && k >= -1 && k < 4) { VarO o = MakeOther(k, x); w.Open(); *p->at(i) = o; w.Close(); } else done = false; break;
+      case 'q': if (live(i) && k >= -1 && k < 4) { VarO o = MakeOther(k, x); w.Open(); *p->at(i) = std::move(o); w.Close(); } else done = false; break;
+      default: done = false;
+    }
+    if (!out.empty()) out += " ";
+    out += (done ? "" : "skip ") + Head() + "|" + DumpVarC(*p);
+  }
+  for (int i = 0; i < 3; i++) if (p->alive[i]) { w.Open(); p->at(i)->~VarC(); w.Close(); }
+  out += " end=" + Head();
+  return out;
+}
+
 // -------------------------------------------------------------- UniqueHandle --
 static std::vector<long> g_closed, g_released;
 struct CountPolicy {
@@ -425,6 +567,46 @@ static std::string RunUh(const std::vector<std::string>& ops) {
   }
   for (int i = 0; i < 3; i++) if (p->alive[i]) { p->at(i)->~UH(); }
   out += " end=" + ListOf(g_closed) + "|" + ListOf(g_released);
+  return out;
+}
+
+// the library's own DefaultHandlePolicy (Close only resets the value; nothing to log)
+static std::string RunUdh(const std::vector<std::string>& ops) {
+  using DH = nop::UniqueHandle<nop::DefaultHandlePolicy<long, -1>>;
+  auto p = std::make_unique<Pool<DH>>();
+  g_released.clear();
+  std::string out;
+  for (const auto& op : ops) {
+    char c = op[0];
+    std::vector<std::string> a = Split(op.substr(1), ':');
+    int i = std::stoi(a[0]);
+    long x = a.size() > 1 ? std::stol(a[1]) : 0;
+    bool done = true;
+    auto dead = [&](int q) { return q >= 0 && q < 3 && !p->alive[q]; };
+    auto live = [&](int q) { return q >= 0 && q < 3 && p->alive[q]; };
+    switch (c) {
+      case 'N': if (dead(i)) { new (p->mem[i]) DH(); p->alive[i] = true; } else done = false; break;
+      case 'V': if (dead(i)) { new (p->mem[i]) DH(x); p->alive[i] = true; } else done = false; break;
+      case 'X': if (dead(i) && live(static_cast<int>(x))) { new (p->mem[i]) DH(std::move(*p->at(static_cast<int>(x)))); p->alive[i] = true; } else done = false; break;
+      case 'D': if (live(i)) { p->at(i)->~DH(); p->alive[i] = false; } else done = false; break;
+      case 'm': if (live(i) && live(static_cast<int>(x))) { *p->at(i) = std::move(*p->at(static_cast<int>(x))); } else done = false; break;
+      case 'c': if (live(i)) { p->at(i)->close(); } else done = false; break;
+      case 'r': if (live(i)) { long r = p->at(i)->release(); if (r >= 0) g_released.push_back(r); } else done = false; break;
+      default: done = false;
+    }
+    std::string s;
+    for (int q = 0; q < 3; q++) {
+      if (q) s += ";";
+      if (!p->alive[q]) { s += "X"; continue; }
+      DH* h = p->at(q);
+      if (static_cast<bool>(*h) != (h->get() != -1)) { s += "INCONSISTENT"; continue; }
+      s += std::to_string(h->get());
+    }
+    if (!out.empty()) out += " ";
+    out += std::string(done ? "" : "skip ") + s + "|-|" + ListOf(g_released);
+  }
+  for (int i = 0; i < 3; i++) if (p->alive[i]) { p->at(i)->~DH(); }
+  out += " end=-|" + ListOf(g_released);
   return out;
 }
 
@@ -498,6 +680,49 @@ static std::string RunUfh(const std::vector<std::string>& ops) {
   return out;
 }
 
+// the named constructors of UniqueFileHandle: each returns an owner of a NEW descriptor (or an empty handle on failure),
+// and the owner closes exactly that descriptor; the handle a duplicate was made from stays open
+static std::string UfhNamed() {
+  using FH = nop::UniqueFileHandle;
+  std::string bad;
+  auto is_open = [](int fd) { return fd >= 0 && fcntl(fd, F_GETFD) != -1; };
+  g_closed.clear();
+  g_track_close = true;
+  int a = -1, d = -1, e = -1, src = memfd_create("verif-src", 0);
+  {
+    FH h = FH::Open("/dev/null", O_RDONLY);
+    a = h.get();
+    if (!h || !is_open(a)) bad += " open-invalid";
+    {
+      FH dup = FH::AsDuplicate(nop::FileHandle{src});
+      d = dup.get();
+      if (!dup || !is_open(d) || d == src) bad += " dup-invalid";
+    }
+    if (is_open(d)) bad += " dup-not-closed";
+    if (!is_open(src)) bad += " dup-closed-its-source";
+    if (!is_open(a)) bad += " open-closed-early";
+    int dirfd = ::open("/dev", O_RDONLY | O_DIRECTORY);
+    {
+      FH at = FH::OpenAt(nop::FileHandle{dirfd}, "null", O_RDONLY);
+      e = at.get();
+      if (!at || !is_open(e) || e == dirfd) bad += " openat-invalid";
+    }
+    if (is_open(e)) bad += " openat-not-closed";
+    if (!is_open(dirfd)) bad += " openat-closed-the-directory";
+    g_track_close = false; RealClose(dirfd); g_track_close = true;
+    FH none = FH::Open("/nonexistent/verif", O_RDONLY);
+    if (none || none.get() >= 0) bad += " open-failure-not-empty";
+  }
+  g_track_close = false;
+  if (is_open(a)) bad += " open-not-closed";
+  RealClose(src);
+  long ca = 0, cd = 0, ce = 0;
+  for (long fd : g_closed) { ca += fd == a; cd += fd == d; ce += fd == e; }
+  // d and e may reuse one number (d is closed before e is opened)
+  if (ca != 1 || (d != e ? (cd != 1 || ce != 1) : cd + 0 != 2)) bad += " close-counts:" + std::to_string(ca) + "/" + std::to_string(cd) + "/" + std::to_string(ce);
+  return "named=" + (bad.empty() ? std::string("ok") : bad.substr(1));
+}
+
 // ------------------------------------------------- the 18 comparison operators --
 static std::string Cmp() {
   // operand states: E (empty), 0, 1, 2 ; for Optional-value the value side has no E
@@ -545,8 +770,11 @@ int main() {
       else if (tok[0] == "sta") out = RunRes<nop::Status<T0>, nop::ErrorStatus>(ops);
       else if (tok[0] == "var") out = RunVar(ops);
       else if (tok[0] == "varm") out = RunVarM(ops);
+      else if (tok[0] == "varc") out = RunVarC(ops);
       else if (tok[0] == "uh") out = RunUh(ops);
       else if (tok[0] == "ufh") out = RunUfh(ops);
+      else if (tok[0] == "udh") out = RunUdh(ops);
+      else if (tok[0] == "ufhnamed") out = UfhNamed();
       else if (tok[0] == "cmp") out = Cmp();
       else if (tok[0] == "msgs") out = Messages();
       else out = "HARNESS-ERROR unknown op";
